@@ -399,7 +399,11 @@ fn exec(j: &Job, rep: &mut Report) -> Option<(Value, String)> {
         // create with the file list on stdin
         let mut a = base.clone();
         a.extend([s("-o"), s("stdin.mla"), s("-")]);
-        let list: String = files.keys().map(|n| format!("{n}\n")).collect();
+        // (for odd trees the last line of the list is not newline-terminated)
+        let mut list: String = files.keys().map(|n| format!("{n}\n")).collect();
+        if j.tree % 2 == 1 {
+            list.pop();
+        }
         let o = cx.run_in(dir, &a, Some(list.as_bytes()));
         if !o.status.success() {
             return fail("create_from_stdin_list_fails", format!("mlar {a:?}: {:?} {}", o.status.code(), tail(&o.stderr)));
@@ -630,7 +634,7 @@ pub fn run(started: Instant) -> i32 {
         rep,
         Meta {
             level: "exploration",
-            rule: "7 generated file trees (empty files, nested directories, unicode and spaces, sizes around the chunk and block sizes, path lengths 99/100/101/156/260 bytes) x layer options {none, compress, encrypt, both (options in either order), default} x levels x key sets (1 or 2 recipients, read with either; with 2 recipients the readers get two candidate keys, a non-recipient first), with the mlar binary built from the working tree (scaled constants; plus trees with files of 128 KiB+-1 and 4 MiB+-1 on the production-constant binary). Pipeline per job: keygen; create (file list or directory recursion - one such tree holds a dot-named file and a dot-named directory; also to stdout and with the file list on stdin); then info and info -v (format version, layer flags, recipients, compression rate against an independent decode), list (also with the single private key delivered on -k /dev/stdin), list -vv (humansize + SHA-256), cat of every file and of all files with --glob '*' (sorted order), extract (linear, --glob '*' and into the output directory named through a symbolic link and '..', no extra files; then again into the same directory whose files were made longer), extract of one name, to-tar (file and stdout; entries parsed with the tar crate); extract into the default directory; repair with --allow-unauthenticated-data; convert to each other layer/key choice and repair of the intact archive (one target of each received on standard output), each followed by the same readers; create|convert|repair chains; negative runs (wrong key, missing key, key for an unencrypted archive) for list/extract/cat/to-tar/convert(/repair) must exit non-zero and leave no output content. transitions = mlar invocations".to_string(),
+            rule: "7 generated file trees (empty files, nested directories, unicode and spaces, sizes around the chunk and block sizes, path lengths 99/100/101/156/260 bytes) x layer options {none, compress, encrypt, both (options in either order), default} x levels x key sets (1 or 2 recipients, read with either; with 2 recipients the readers get two candidate keys, a non-recipient first), with the mlar binary built from the working tree (scaled constants; plus trees with files of 128 KiB+-1 and 4 MiB+-1 on the production-constant binary). Pipeline per job: keygen; create (file list or directory recursion - one such tree holds a dot-named file and a dot-named directory; also to stdout and with the file list on stdin, newline-terminated or not); then info and info -v (format version, layer flags, recipients, compression rate against an independent decode), list (also with the single private key delivered on -k /dev/stdin), list -vv (humansize + SHA-256), cat of every file and of all files with --glob '*' (sorted order), extract (linear, --glob '*' and into the output directory named through a symbolic link and '..', no extra files; then again into the same directory whose files were made longer), extract of one name, to-tar (file and stdout; entries parsed with the tar crate); extract into the default directory; repair with --allow-unauthenticated-data; convert to each other layer/key choice and repair of the intact archive (one target of each received on standard output), each followed by the same readers; create|convert|repair chains; negative runs (wrong key, missing key, key for an unencrypted archive) for list/extract/cat/to-tar/convert(/repair) must exit non-zero and leave no output content. transitions = mlar invocations".to_string(),
             exhaustive: true,
             bounds: json!({"jobs": js.len()}),
             assumptions: vec!["human-readable sizes are formatted with the same humansize crate as the tool".to_string()],
